@@ -385,3 +385,105 @@ func init() {
 		c.Check(n >= 6, "index prefix scans found", "-", fmt.Sprintf("%d", n), fmt.Sprintf("only %d prefix scans", n))
 	})
 }
+
+// ------------------------------------------------------------------ C19.R7
+// Index completeness and search exactness, the parts that sit in helpers of Index/Search:
+// (a) indexEvents visits every attribute of every event: its loops are left early only by a failing return;
+// (b) a further condition *intersects*: in the reduce loop over the candidate set an entry is deleted exactly
+//     when the current condition's match set (another map) has no entry for the same key;
+// (c) query matching and range scans never drop a parse error: a value that does not parse must not be
+//     compared as zero (it would match `x < 5` or `x = 0`).
+func init() {
+	register("C19", "R7", "K9+K1", "indexers visit every event attribute; search conditions intersect by key; value parse errors are never dropped", 12, func(c *Ctx) {
+		w := c.W
+		k := newKeyer()
+		// (a)
+		for _, spec := range [][2]string{{"state/txindex/kv", "TxIndex.indexEvents"}, {"state/indexer/block/kv", "BlockerIndexer.indexEvents"}} {
+			f := c.fn(spec[0], spec[1])
+			if f == nil {
+				continue
+			}
+			loops := 0
+			for _, b := range f.Blocks {
+				if !isLoopHead(b) {
+					continue
+				}
+				loops++
+				for _, e := range loopEarlyExits(b) {
+					succ := e.From.Succs[e.Succ]
+					c.Check(edgeOnlyFails(w, f, succ), k.key(f, "loop over events/attributes is left early only with an error"), w.ipos(e.From.Instrs[len(e.From.Instrs)-1]), "early exit = failing return", "the loop over events or attributes can be left early without an error: the remaining attributes are not indexed")
+				}
+			}
+			c.Check(loops >= 2, funcKey(f)+" :: event and attribute loops found", w.pos(f.Pos()), ">= 2 loops", fmt.Sprintf("%d", loops))
+		}
+		// (b)
+		nDel := 0
+		for _, pkg := range []string{"state/txindex/kv", "state/indexer/block/kv"} {
+			for _, f := range w.FuncsInPkg(pkg) {
+				if !strings.HasPrefix(f.Name(), "match") {
+					continue
+				}
+				for _, call := range w.callsTo(f, "builtin#delete") {
+					args := call.Common().Args
+					if len(args) != 2 {
+						continue
+					}
+					m, key := stripConv(args[0]), stripConv(args[1])
+					nDel++
+					g := Guard{Name: "the current condition's match set has no entry for this key", Match: func(w *World, ff *ssa.Function, a Atom) bool {
+						if a.Kind != "nil" && a.Kind != "false" {
+							return false
+						}
+						v := stripConv(a.V)
+						if ex, ok := v.(*ssa.Extract); ok { // v, ok := other[k]
+							if a.Kind != "false" || ex.Index != 1 {
+								return false
+							}
+							v = ex.Tuple
+						} else if a.Kind != "nil" {
+							return false
+						}
+						lk, ok := v.(*ssa.Lookup)
+						return ok && stripConv(lk.X) != m && stripConv(lk.Index) == key
+					}}
+					c.guards(f, call, k.key(f, "drop a candidate"), 0, g)
+				}
+			}
+		}
+		c.Check(nDel >= 4, "kv indexers :: reduce loops found", "-", ">= 4 delete sites", fmt.Sprintf("%d", nDel))
+		// (c)
+		nParse := 0
+		for _, pkg := range []string{"libs/pubsub/query", "state/txindex/kv", "state/indexer/block/kv"} {
+			for _, f := range w.FuncsInPkg(pkg) {
+				for _, call := range callInstrs(f) {
+					d, ok := describeCallee(call)
+					if !ok || !(d.Pkg == "strconv" && (strings.HasPrefix(d.Name, "Parse") || d.Name == "Atoi") || d.Pkg == "time" && d.Name == "Parse") {
+						continue
+					}
+					nParse++
+					v, isV := call.(ssa.Value)
+					used := false
+					if isV {
+						for _, r := range *v.Referrers() {
+							if ex, ok := r.(*ssa.Extract); ok && ex.Index == 1 && len(*ex.Referrers()) > 0 {
+								used = true
+							}
+						}
+					}
+					c.Check(used, k.key(f, "parse error is looked at"), w.ipos(call), "err of "+d.Pkg+"."+d.Name+" is used", "the error of "+w.callStr(call)+" is dropped: an unparsable value is compared as zero")
+				}
+			}
+		}
+		c.Check(nParse >= 10, "query / kv indexers :: parse calls found", "-", ">= 10", fmt.Sprintf("%d", nParse))
+	})
+}
+
+// isLoopHead: b has a back edge (a predecessor it dominates).
+func isLoopHead(b *ssa.BasicBlock) bool {
+	for _, p := range b.Preds {
+		if b.Dominates(p) {
+			return true
+		}
+	}
+	return false
+}
